@@ -516,11 +516,14 @@ func VerifC05SubstringFaults(v *vrt.T) {
 	s.Set("j", stop)
 	r, err := expr.EvalString(s)
 	v.Observe("err", err != nil)
+	valid := start >= 0 && start <= stop && stop <= int64(len(str))
 	if err == nil {
-		v.Assert(start >= 0 && start <= stop && stop <= int64(len(str)), "a substring is only returned for valid bounds")
-		if start >= 0 && start <= stop && stop <= int64(len(str)) {
+		v.Assert(valid, "a substring is only returned for valid bounds")
+		if valid {
 			v.Assert(r == str[start:stop], "substring value")
 		}
+	} else {
+		v.Assert(!valid, "valid bounds (also the empty range start == stop) give the substring, not an error")
 	}
 	v.Reach("end")
 }
